@@ -161,6 +161,10 @@ func (t *tnode) describe(tw *treeWorld, indent string, out *[]string) {
 				d = fmt.Sprintf("%s staking.%s(val%d, %s) (onFail %s)", l.Call, strings.TrimPrefix(l.Kind, "stake-"), l.V, l.Amt, l.OnFail)
 			case "stake-withdraw":
 				d = fmt.Sprintf("%s staking.withdrawReward(val%d) (onFail %s)", l.Call, l.V, l.OnFail)
+			case "selfdestruct":
+				d = fmt.Sprintf("SELFDESTRUCT to %s", l.To.Hex())
+			case "touch":
+				d = fmt.Sprintf("CALL existing empty account %s with value 0", l.To.Hex())
 			}
 			*out = append(*out, fmt.Sprintf("%s  leaf#%d %s  => model: %s (context %s)", indent, l.Idx, d, l.outcome(), l.Ctx.Hex()))
 		} else {
@@ -181,6 +185,7 @@ type treeGen struct {
 	r      *vh.RNG
 	tw     *treeWorld
 	ti     int
+	mode   string
 	nodes  int
 	leaves []*leaf
 	// amounts of delegate leaves per validator, so that undelegate leaves can ask for amounts that may be covered
@@ -205,6 +210,14 @@ func (g *treeGen) leaf() *leaf {
 		l.OnFail = "propagate"
 	}
 	x := r.Intn(100)
+	if x < 4 && len(g.tw.empties) > 0 {
+		// value-0 CALL to an existing empty account: a surviving touch lets commit delete it (EIP-161), a reverted one must not
+		l.Kind = "touch"
+		l.To = g.tw.empties[len(g.tw.empties)-1]
+		g.tw.empties = g.tw.empties[:len(g.tw.empties)-1]
+		g.leaves = append(g.leaves, l)
+		return l
+	}
 	switch {
 	case x < 18:
 		l.Kind = "sstore"
@@ -284,7 +297,9 @@ func leafGas(l *leaf) (callGas, budget uint64) {
 		return 0, 30_000
 	case "log":
 		return 0, 5_000
-	case "value":
+	case "touch":
+		return 0, 15_000
+	case "value", "selfdestruct":
 		return 0, 60_000
 	case "erc20-transfer", "erc20-burn":
 		return 60_000, 75_000
@@ -297,25 +312,39 @@ func leafGas(l *leaf) (callGas, budget uint64) {
 	}
 }
 
-func (g *treeGen) node(depth int) *tnode {
+// node generates a frame. safe: the storage context of this frame is certainly not a persistent proxy
+// (only then may a descendant running in the same context SELFDESTRUCT it).
+func (g *treeGen) node(depth int, safe bool) *tnode {
 	r := g.r
 	g.nodes++
 	t := &tnode{N: &vh.Node{Name: fmt.Sprintf("n%d", g.nodes)}}
 	nsteps := r.Range(1, 4)
 	for i := 0; i < nsteps; i++ {
 		if depth < maxTreeDepth && g.nodes < maxTreeNodes && r.Chance(45, 100) {
-			c := g.node(depth + 1)
+			kind := vh.CALLCODE
 			switch y := r.Intn(20); {
 			case y < 10:
-				c.N.Kind = vh.CALL
+				kind = vh.CALL
 			case y < 15:
-				c.N.Kind = vh.DELEGATECALL
-			default:
-				c.N.Kind = vh.CALLCODE
+				kind = vh.DELEGATECALL
 			}
+			csafe := safe || kind == vh.CALL
+			c := g.node(depth+1, csafe)
+			c.N.Kind = kind
 			c.N.OnFail = "ignore"
 			if r.Chance(1, 4) {
 				c.N.OnFail = "propagate"
+			}
+			if csafe && r.Chance(1, 6) {
+				// the child ends by SELFDESTRUCT of the context it runs in (its own, or an ancestor's for
+				// DELEGATECALL / CALLCODE children) instead of STOP/REVERT/INVALID
+				l := &leaf{Idx: len(g.leaves), Kind: "selfdestruct", To: common.BytesToAddress(r.Bytes(20)), OnFail: "ignore"}
+				g.leaves = append(g.leaves, l)
+				b := l.To
+				c.N.Steps = append(c.N.Steps, vh.Step{Destroy: &b})
+				c.Items = append(c.Items, titem{Leaf: l})
+				c.N.End = "stop"
+				c.budget += 70_000
 			}
 			if c.N.Kind != vh.DELEGATECALL && r.Chance(1, 4) {
 				c.N.Value = g.uniqueAmt(int64(1 + r.Intn(900)))
@@ -337,6 +366,8 @@ func (g *treeGen) node(depth int) *tnode {
 			st.Log = &w
 		case "value":
 			st.Ext = &vh.ExtCall{Kind: vh.CALL, To: l.To, Value: l.Amt, OnFail: l.OnFail}
+		case "touch":
+			st.Ext = &vh.ExtCall{Kind: vh.CALL, To: l.To, OnFail: l.OnFail}
 		default:
 			cg, _ := leafGas(l)
 			st.Ext = &vh.ExtCall{Kind: l.Call, To: g.tw.precompileOf(l.Kind), Gas: cg, Data: g.tw.callData(l), OnFail: l.OnFail}
@@ -384,6 +415,7 @@ type treeWorld struct {
 	proxies  [2]common.Address // [0] propagates a failed root, [1] ignores it
 	proxyAge int
 	modules  map[common.Address]string
+	empties  []common.Address // stock of existing empty accounts (genesis accounts without coins), one per touch leaf
 }
 
 func (tw *treeWorld) precompileOf(kind string) common.Address {
@@ -471,6 +503,11 @@ func setupTreeWorld(run *vh.Run, wi int) *treeWorld {
 	for _, a := range []*vh.Acct{tw.sender, tw.funder, tw.deployer} {
 		accs = append(accs, vh.GenAccount{Addr: a.Addr, Coins: vh.NativeCoins(1_000_000)})
 	}
+	for i := 0; i < 256; i++ {
+		a := common.BytesToAddress(r.Bytes(20))
+		tw.empties = append(tw.empties, a)
+		accs = append(accs, vh.GenAccount{Addr: a})
+	}
 	tw.c = vh.NewChain(vh.Config{Seed: r.U64(), NumVals: 2, Erc20Native: true, StakingCPC: true, Accounts: accs})
 	ctx := tw.c.QueryCtx()
 	for _, m := range tw.c.App.CPCKeeper.GetAllCustomPrecompiledContractsMeta(ctx) {
@@ -506,6 +543,8 @@ type tview struct {
 	UbdNow map[string]bool // an entry created at the current height exists (a further one merges into it)
 	Supply *big.Int
 	Seq    uint64
+	Exists map[common.Address]bool // account record and code present (puppet contexts)
+	Acct   map[common.Address]bool // account record present (touch targets)
 }
 
 func sk(a common.Address, slot uint64) string      { return fmt.Sprintf("%s/%d", a.Hex(), slot) }
@@ -524,13 +563,17 @@ type tracked struct {
 	bals  []common.Address
 	allow [][2]common.Address
 	ctxs  []common.Address
+	touch []common.Address
 }
 
 func (tw *treeWorld) viewFn(tr *tracked) vh.ViewFn {
 	return func(ctx sdk.Context) any {
 		app := tw.c.App
 		v := &tview{Height: ctx.BlockHeight(), Stor: map[string]uint64{}, Bal: map[common.Address]*big.Int{}, Allow: map[string]*big.Int{},
-			Deleg: map[string]*big.Int{}, Ubd: map[string]int{}, UbdNow: map[string]bool{}}
+			Deleg: map[string]*big.Int{}, Ubd: map[string]int{}, UbdNow: map[string]bool{}, Exists: map[common.Address]bool{}, Acct: map[common.Address]bool{}}
+		for _, a := range tr.touch {
+			v.Acct[a] = app.AccountKeeper.HasAccount(ctx, a.Bytes())
+		}
 		for _, s := range tr.stor {
 			a, slot := s[0].(common.Address), s[1].(uint64)
 			v.Stor[sk(a, slot)] = app.EvmKeeper.GetState(ctx, a, hashN(slot)).Big().Uint64()
@@ -542,6 +585,7 @@ func (tw *treeWorld) viewFn(tr *tracked) vh.ViewFn {
 			v.Allow[pk(p[0], p[1])] = app.CPCKeeper.GetErc20CpcAllowance(ctx, p[0], p[1])
 		}
 		for _, a := range tr.ctxs {
+			v.Exists[a] = app.AccountKeeper.HasAccount(ctx, a.Bytes()) && len(app.EvmKeeper.GetCode(ctx, app.EvmKeeper.GetCodeHash(ctx, a.Bytes()))) > 0
 			for vi, val := range tw.valOpers {
 				k := dk(a, vi)
 				v.Deleg[k] = new(big.Int)
@@ -596,12 +640,21 @@ type mstate struct {
 	burnt  *big.Int
 	logs   []mlog
 	alive  map[int]bool // leaves whose effect is in force
+	dead   map[common.Address]bool // contexts marked self-destructed
+	poked  map[common.Address]bool // existing empty accounts touched by a value-0 call
 }
 
 func (s *mstate) clone() *mstate {
 	c := &mstate{stor: make(map[string]uint64, len(s.stor)), bal: make(map[common.Address]*big.Int, len(s.bal)), allow: cloneBig(s.allow),
 		deleg: cloneBig(s.deleg), ubd: make(map[string]int, len(s.ubd)), ubdNow: make(map[string]bool, len(s.ubdNow)),
-		burnt: new(big.Int).Set(s.burnt), logs: append([]mlog{}, s.logs...), alive: make(map[int]bool, len(s.alive))}
+		burnt: new(big.Int).Set(s.burnt), logs: append([]mlog{}, s.logs...), alive: make(map[int]bool, len(s.alive)), dead: make(map[common.Address]bool, len(s.dead))}
+	for k, v := range s.dead {
+		c.dead[k] = v
+	}
+	c.poked = make(map[common.Address]bool, len(s.poked))
+	for k, v := range s.poked {
+		c.poked[k] = v
+	}
 	for k, v := range s.stor {
 		c.stor[k] = v
 	}
@@ -645,6 +698,9 @@ func (m *model) frame(t *tnode, ctx common.Address) bool {
 			l.Reached, l.Ctx = true, ctx
 			if !m.leaf(l, ctx) && l.OnFail == "propagate" {
 				return false
+			}
+			if l.Kind == "selfdestruct" {
+				return true // SELFDESTRUCT halts the frame successfully
 			}
 			continue
 		}
@@ -747,6 +803,13 @@ func (m *model) leaf(l *leaf, ctx common.Address) bool {
 		if s.deleg[k] == nil || s.deleg[k].Sign() <= 0 {
 			return false // no delegation
 		}
+	case "touch":
+		s.poked[l.To] = true
+	case "selfdestruct":
+		b := new(big.Int).Set(s.balOf(ctx))
+		s.balOf(l.To).Add(s.balOf(l.To), b)
+		s.balOf(ctx).SetInt64(0)
+		s.dead[ctx] = true
 	}
 	l.CallOK = true
 	s.alive[l.Idx] = true
@@ -763,8 +826,6 @@ func (tw *treeWorld) runTree(ti int) {
 	if tw.proxyAge >= 25 {
 		tw.newProxies() // fresh persistent contexts before unbonding entries / balances run out
 	}
-	g := &treeGen{r: r, tw: tw, ti: ti}
-	root := g.node(1)
 	mode := "direct"
 	switch x := r.Intn(20); {
 	case x < 7:
@@ -772,6 +833,8 @@ func (tw *treeWorld) runTree(ti int) {
 	case x < 12:
 		mode = "proxy-ignore"
 	}
+	g := &treeGen{r: r, tw: tw, ti: ti, mode: mode}
+	root := g.node(1, mode == "direct")
 	if tw.proxyAge < 2 { // the first two trees of a proxy generation give each proxy delegations to both validators
 		mode = "proxy-propagate"
 		if tw.proxyAge == 1 {
@@ -837,7 +900,10 @@ func (tw *treeWorld) runTree(ti int) {
 			for _, a := range tr.ctxs {
 				tr.stor = append(tr.stor, [2]any{a, l.Slot})
 			}
-		case "value", "erc20-transfer":
+		case "value", "erc20-transfer", "selfdestruct":
+			tr.bals = append(tr.bals, l.To)
+		case "touch":
+			tr.touch = append(tr.touch, l.To)
 			tr.bals = append(tr.bals, l.To)
 		case "erc20-approve":
 			for _, a := range tr.ctxs {
@@ -874,7 +940,7 @@ func (tw *treeWorld) runTree(ti int) {
 
 	// model fold from the observed pre-state
 	m := &model{tw: tw, s: &mstate{stor: map[string]uint64{}, bal: map[common.Address]*big.Int{}, allow: cloneBig(pre.Allow), deleg: cloneBig(pre.Deleg),
-		ubd: map[string]int{}, ubdNow: map[string]bool{}, burnt: new(big.Int), alive: map[int]bool{}}}
+		ubd: map[string]int{}, ubdNow: map[string]bool{}, burnt: new(big.Int), alive: map[int]bool{}, dead: map[common.Address]bool{}, poked: map[common.Address]bool{}}}
 	for k, v := range pre.Stor {
 		m.s.stor[k] = v
 	}
@@ -902,6 +968,21 @@ func (tw *treeWorld) runTree(ti int) {
 		l.Survived = l.CallOK && m.s.alive[l.Idx] && txOK
 	}
 	fin := m.s
+	if !txOK {
+		fin.dead = map[common.Address]bool{}
+		fin.poked = map[common.Address]bool{}
+	}
+	// commit destroys every context still marked self-destructed: whatever balance reached it after the
+	// SELFDESTRUCT is burnt, its storage and code hash go away (delegations and allowances stay)
+	for a := range fin.dead {
+		fin.burnt.Add(fin.burnt, fin.balOf(a))
+		fin.balOf(a).SetInt64(0)
+		for k := range fin.stor {
+			if strings.HasPrefix(k, a.Hex()+"/") {
+				fin.stor[k] = 0
+			}
+		}
+	}
 
 	diff := vh.Diff(ob.Pre[0].Dump, ob.Post[0].Dump)
 	if ob.PostIsEndBlock[0] {
@@ -1043,6 +1124,21 @@ func (tw *treeWorld) runTree(ti int) {
 			}
 		}
 	}
+	for _, a := range tr.ctxs {
+		if want := pre.Exists[a] && !fin.dead[a]; post.Exists[a] != want {
+			bad = append(bad, mm{"account+code present " + a.Hex(), fmt.Sprint(want), fmt.Sprint(post.Exists[a])})
+			sigs[dirSig(post.Exists[a] != pre.Exists[a], "self-destruct")] = true
+		}
+	}
+	for _, a := range tr.touch {
+		switch {
+		case fin.poked[a] && !post.Acct[a]:
+			run.Count("m2_empty_accounts_deleted_after_surviving_touch", 1)
+		case !fin.poked[a] && post.Acct[a] != pre.Acct[a]:
+			bad = append(bad, mm{"existing empty account " + a.Hex() + " still present", fmt.Sprint(pre.Acct[a]), fmt.Sprint(post.Acct[a])})
+			sigs["revert-left-trace:touched-empty-account"] = true
+		}
+	}
 	if ds := new(big.Int).Sub(pre.Supply, post.Supply); ds.Cmp(fin.burnt) != 0 {
 		bad = append(bad, mm{"supply decrease", fin.burnt.String(), ds.String()})
 		sigs[dirSig(ds.Sign() != 0, "bank-supply")] = true
@@ -1124,6 +1220,7 @@ func (tw *treeWorld) runTree(ti int) {
 			a := common.BytesToAddress(ch.Key[1:])
 			switch {
 			case a == tw.sender.Addr && ch.Old != nil && ch.New != nil:
+			case ch.Old != nil && ch.New == nil && (fin.dead[a] || fin.poked[a]):
 			case ch.Old == nil && (changedBal[a] || tw.modules[a] == authtypes.FeeCollectorName || tw.modules[a] == "evm"):
 				newRecords++
 			default:
@@ -1132,7 +1229,10 @@ func (tw *treeWorld) runTree(ti int) {
 		case "acc-global-account-number":
 			numberDelta = int64(new(big.Int).SetBytes(ch.New).Uint64()) - int64(new(big.Int).SetBytes(ch.Old).Uint64())
 		case "acc-account-number-index":
-			if ch.Old != nil || !changedBal[common.BytesToAddress(ch.New)] {
+			switch {
+			case ch.Old == nil && changedBal[common.BytesToAddress(ch.New)]:
+			case ch.New == nil && (fin.dead[common.BytesToAddress(ch.Old)] || fin.poked[common.BytesToAddress(ch.Old)]):
+			default:
 				flag(ch)
 			}
 		case "bank-balance":
@@ -1153,6 +1253,10 @@ func (tw *treeWorld) runTree(ti int) {
 				k = sk(common.BytesToAddress(ch.Key[1:21]), new(big.Int).SetBytes(ch.Key[21:]).Uint64())
 			}
 			if _, tracked := post.Stor[k]; !tracked || fin.stor[k] == preModel.stor[k] {
+				flag(ch)
+			}
+		case "evm-code-hash":
+			if !(len(ch.Key) == 21 && ch.New == nil && fin.dead[common.BytesToAddress(ch.Key[1:])]) {
 				flag(ch)
 			}
 		case "cpc-allowance":
@@ -1189,11 +1293,11 @@ func (tw *treeWorld) runTree(ti int) {
 		ucls["acc-global-account-number"] = true
 	}
 	for cls := range ucls {
+		if rc.Status == 0 {
+			break // judged by the (stricter) VM-error law below
+		}
 		sig := "unexplained-write:" + cls
-		switch {
-		case rc.Status == 0:
-			sig = "vm-error-left-write:" + cls
-		case anyReverted:
+		if anyReverted {
 			sig = "revert-left-trace:" + cls
 		}
 		run.Violation(sig, label, witness(map[string]any{"unexplained_writes": unexplained}))
